@@ -137,3 +137,53 @@ func (f *Frame) contractWrites(c *FuncContract, fn *types.Func) *wset {
 	_ = strings.TrimSpace
 	return w
 }
+
+// ghostWritesOf: ghost variables (pkgpath.name) that a call to fn may assign: the targets of the anchored
+// ghost assignments in fn's contract, ghost variables named in its assigns clause, and, transitively, those of
+// the module functions it calls statically.
+func (f *Frame) ghostWritesOf(fn *types.Func, callerPkg string) map[string]bool {
+	out := map[string]bool{}
+	seen := map[*types.Func]bool{}
+	var walk func(g *types.Func, depth int)
+	walk = func(g *types.Func, depth int) {
+		if g == nil || seen[g] || depth > 6 {
+			return
+		}
+		seen[g] = true
+		key := g.FullName()
+		if o := g.Origin(); o != nil {
+			key = o.FullName()
+		}
+		pkg := callerPkg
+		if g.Pkg() != nil {
+			pkg = g.Pkg().Path()
+		}
+		if c := f.prog.ContractFor(key, pkg); c != nil {
+			pc := f.prog.Contracts[c.PkgPath]
+			for _, a := range c.Anchored {
+				if a.Kind == "ghost" && a.GhostVar != "" {
+					out[c.PkgPath+"."+a.GhostVar] = true
+				}
+			}
+			for _, a := range c.Assigns {
+				if a.Kind == CIdent && pc != nil {
+					if _, ok := pc.GhostVars[a.Name]; ok {
+						out[c.PkgPath+"."+a.Name] = true
+					}
+				}
+			}
+		}
+		if n := f.nodes[g.Origin()]; n != nil {
+			for _, cal := range n.callees {
+				walk(cal, depth+1)
+			}
+			for _, l := range n.lits {
+				for _, cal := range l.callees {
+					walk(cal, depth+1)
+				}
+			}
+		}
+	}
+	walk(fn, 0)
+	return out
+}
